@@ -416,6 +416,13 @@ func (p *Prog) flatten() {
 	/* A private function which takes a struct only to take it apart gets
 	the fields as parameters (whichever way its author bundled them). */
 	p.promoteParams(tops)
+	/* What all of the above has made decidable at analysis time. */
+	for _, f := range tops {
+		if !isHelper(f) && nil == f.Parent() {
+			ssa.Relift(f)
+			ssa.FoldConstOps(f)
+		}
+	}
 	/* Which helpers are still referenced from non-helper code? */
 	still := map[*ssa.Function]bool{}
 	var visit func(f *ssa.Function)
